@@ -98,3 +98,40 @@ def check_function(ctx, repo, fi, rule, what, follow_helpers=True, require_site=
     if require_site and sites == 0:
         raise AnalysisError("%s: no discretisation of a step quotient recognised in %s or its helpers (%s)" % (rule, fi.fq, what))
     return sites
+
+
+def snap_tolerance_rule(ctx, repo, rule, sites):
+    """The 'snap to the nearest integer' test in front of ceil() only absorbs rounding error: relative tolerance <= 1e-8."""
+    import ast as _ast
+
+    from ..core.loader import own_nodes as _own, norm as _norm
+
+    ctx.rule(rule, "snapping a step count to the nearest integer absorbs floating-point error only: the test compares |n - round(n)| with a bound of at most 1e-8 (absolute, or relative to max(1, |n|)); np.isclose / math.isclose with default tolerances (1e-5 relative) would round a duration that is genuinely a little longer than k steps down to k")
+    LIMIT = 1e-8
+    n_sites = 0
+    for m, q in sites:
+        fi = repo.func(m, q)
+        found = False
+        for c in _own(fi.node):
+            # abs(n - round(n)) < C [* max(1.0, abs(n))]
+            if isinstance(c, _ast.Compare) and len(c.ops) == 1 and isinstance(c.ops[0], (_ast.Lt, _ast.LtE)) and isinstance(c.left, _ast.Call) and _ast.unparse(c.left.func) in ("abs", "np.abs", "math.fabs") and "round(" in _ast.unparse(c.left):
+                found = True
+                n_sites += 1
+                consts = [x.value for x in _ast.walk(c.comparators[0]) if isinstance(x, _ast.Constant) and isinstance(x.value, float) and x.value < 1]
+                ok = len(consts) == 1 and consts[0] <= LIMIT
+                ctx.check(ok, rule, fi, c, "snap tolerance %s" % (consts[0] if consts else "?"), "`%s` snaps with a tolerance larger than 1e-8 (or one that cannot be read off): step counts that are genuinely non-integer are rounded to the nearest integer, so cohorts are released (or the time grid ends) one step early" % _ast.unparse(c)[:90])
+            if isinstance(c, _ast.Call) and _ast.unparse(c.func) in ("np.isclose", "math.isclose", "np.allclose") and any("round(" in _ast.unparse(a) for a in c.args):
+                found = True
+                n_sites += 1
+                kw = {k.arg: k.value for k in c.keywords}
+                rt = kw.get("rtol", kw.get("rel_tol"))
+                at = kw.get("atol", kw.get("abs_tol"))
+                default_r = 1e-5 if _ast.unparse(c.func).startswith("np.") else 1e-9
+                default_a = 1e-8 if _ast.unparse(c.func).startswith("np.") else 0.0
+                r = rt.value if isinstance(rt, _ast.Constant) else (default_r if rt is None else None)
+                a = at.value if isinstance(at, _ast.Constant) else (default_a if at is None else None)
+                ok = r is not None and a is not None and r <= LIMIT and a <= LIMIT
+                ctx.check(ok, rule, fi, c, "isclose tolerances rtol=%s atol=%s" % (r, a), "`%s` snaps with rtol=%s, atol=%s (limit 1e-8): a count that is k + 1e-5*k steps is rounded down to k, so a cohort leaves one step before its duration expires" % (_ast.unparse(c)[:70], r, a))
+        if not found:
+            ctx.fail(rule, fi, fi.node, "%s: the snap-to-integer test in front of the rounding was not found" % q, stmt_text="snap-missing:%s" % q)
+    ctx.require(n_sites >= len(sites), "%s: fewer snap tests than sites" % rule)
